@@ -37,7 +37,7 @@ REQUIRED = {"hist.observable_result": {"quick": 50000, "thorough": 2000000}, "hi
 REQUIRED_SEEN = {"cleanup_registered_from": ["before_all", "before_feature", "before_rule", "before_scenario", "before_step", "step", "after_step",
                                              "after_scenario", "before_tag"],
                  "cleanup_layer": ["current", "feature", "scenario", "testrun"],
-                 "generator_fixture_given_as": ["fx_partial", "fx_method"], "scoped_layer_name": ["has_upper_case", "lower_case"],
+                 "cleanup_shape": ["same_function_other_arguments"], "generator_fixture_given_as": ["fx_partial", "fx_method"], "scoped_layer_name": ["has_upper_case", "lower_case"],
                  "scoped_block_left_by": ["normal", "RuntimeError", "KeyboardInterrupt", "SystemExit"]}
 EXHAUSTIVE = True
 EXHAUSTIVE_SCOPE = "all operation histories up to the length bound over the 16-operation alphabet"
@@ -199,6 +199,18 @@ def run_history(lab, mon, ops, rng=None, label="exhaustive"):
             else:
                 ctx.add_cleanup(fn)
             model.add_cleanup(cid)
+        elif op == "cl_same_fn_args":
+            # ONE function registered twice with different arguments: two cleanups (only the very same call is a duplicate)
+            cid1, _f1 = make_cleanup(False)
+            cid2, _f2 = make_cleanup(False)
+
+            def release(which, log=log):
+                log.append(which)
+            ctx.add_cleanup(release, cid1)
+            ctx.add_cleanup(release, cid2)
+            model.add_cleanup(cid1)
+            model.add_cleanup(cid2)
+            mon.seen("cleanup_shape", "same_function_other_arguments")
         elif op == "cl_nesting":
             # a cleanup (e.g. a fixture teardown) that itself works inside a nested scope: opens a layer, registers a passing
             # cleanup there, closes it -- no net effect on the stack, and it must not disturb the bookkeeping of the outer pop
@@ -761,7 +773,7 @@ def run(spec, mon):
                     sink.seek(0)
                     sink.truncate()
         mon.count("exhaustive_histories_enumerated", idx if shard == 0 else 0)
-        ALL = OPS + ["set_none_a", "set_none_a", "create", "cl_nesting", "cl_nesting", "cl_same", "cl_same", "cl_same_layer_f", "cl_same_layer_s", "fx_nested", "push_r", "cl_layer_s", "cl_layer_t", "cl_layer_x", "fx_plain", "fx_composite", "user_mode_raise", "create", "scoped_ok", "scoped_exc", "scoped_ki", "scoped_exit", "fx_partial", "fx_partial", "fx_method",
+        ALL = OPS + ["set_none_a", "set_none_a", "create", "cl_nesting", "cl_nesting", "cl_same", "cl_same", "cl_same_layer_f", "cl_same_layer_s", "fx_nested", "push_r", "cl_layer_s", "cl_layer_t", "cl_layer_x", "fx_plain", "fx_composite", "user_mode_raise", "create", "scoped_ok", "scoped_exc", "scoped_ki", "scoped_exit", "fx_partial", "fx_partial", "fx_method", "cl_same_fn_args", "cl_same_fn_args",
                      ("set", "c"), ("get", "c"), ("del", "b"), ("in", "b"), ("root", "b"), ("get", "fx_value"), ("assign", "b")]
         for i in range(150 if tier == "quick" else 8000):
             ops = [rng.choice(ALL) for _ in range(rng.randint(5, 40))]
